@@ -448,7 +448,9 @@ def key_cases(chk, n):
 IMPORTED_NAMES = ["IntString", "FloatString", "BooleanString", "IsoDateString", "IsoTimeString", "IsoDatetimeString",
                   "Optional", "List", "Dict", "Any", "Union", "Literal", "BaseModel", "Field", "SQLModel", "attr", "field", "dataclass",
                   "optional", "convert_strings", "ClassType", "datetime", "date", "time", "Config", "typing", "pydantic", "attrs",
-                  "dataclasses", "json_to_models", "annotations", "METADATA_FIELD_NAME"]
+                  "dataclasses", "json_to_models", "annotations", "METADATA_FIELD_NAME",
+                  # attributes every class has (from `type`) or every pydantic model has
+                  "register", "mro", "dict", "schema", "copy", "json", "construct", "validate", "fields", "update_forward_refs"]
 
 
 def reserved_name_cases(chk, n):
@@ -644,7 +646,7 @@ KIND_WORDS = {"lower": ["name", "value", "item"], "cap": ["Name", "Value"], "upp
               "typing": ["Optional", "List", "Any", "Union", "Literal", "Dict"],
               "fwimport": ["Field", "BaseModel", "field", "dataclass", "attr", "optional", "SQLModel", "convert_strings", "ClassType",
                            "IntString", "FloatString", "BooleanString", "IsoDateString", "IsoTimeString", "IsoDatetimeString", "iso_date_string"],
-              "pydattr": ["json", "copy", "schema_json", "fields", "config", "parse_obj", "validate", "construct"],
+              "pydattr": ["json", "copy", "schema_json", "fields", "config", "parse_obj", "validate", "construct", "register", "mro"],
               "nonascii": ["état", "имя", "größe"], "digit": ["1", "42", "0"]}
 
 
